@@ -34,6 +34,8 @@ var itemPool = []PoolItem{
 	{Name: "W0<abc", Make: sized(mS|mW, ItemF{S: "abc", W: 0}), Text: "abc", Tags: []string{"declared_width_differs_from_text"}},
 	{Name: "H-1W-1", Make: sized(mS|mH|mW, ItemF{S: "a", H: -1, W: -1}), Text: "a", Tags: []string{"negative_declared_size"}},
 	{Name: "H0W5empty", Make: sized(mS|mH|mW, ItemF{S: "", H: 0, W: 5}), Text: "", Tags: []string{"empty_text", "declared_width_differs_from_text"}},
+	{Name: "W1<2longlines", Make: sized(mS|mW, ItemF{S: "abcd\nefgh", W: 1}), Text: "abcd\nefgh", Tags: []string{"declared_width_differs_from_text", "multi_line"}},
+	{Name: "W2<wide", Make: sized(mS|mW, ItemF{S: "ｗｗｗ\nx", W: 2}), Text: "ｗｗｗ\nx", Tags: []string{"declared_width_differs_from_text", "multi_line"}},
 }
 
 // PoolFill returns an ItemGen that picks one pool item per operation (all cells of the op alike).
